@@ -26,7 +26,7 @@ static Weights profile_weights(const std::string &prop) {
     s = {{P::O_QUIT, 1}, {P::O_CTX_PROBE, 0.7}, {P::O_REG, 0.7}, {P::O_DEREG, 1.5}, {P::O_START, 2}, {P::O_PAUSE, 1.5}, {P::O_RESUME, 1}, {P::O_STOP, 1.5}, {P::O_PILL, 0.5},
          {P::O_SUB, 3}, {P::O_UNSUB, 1.5}, {P::O_TELL, 4}, {P::O_PUB, 4}, {P::O_BCAST, 1}, {P::O_BECOME, 1.5}, {P::O_UNBECOME, 1.5}, {P::O_STASH, 3}, {P::O_UNSTASH, 1.5},
          {P::O_BATCH_SIZE, 0.7}, {P::O_REF_EVT, 0.8}, {P::O_DROP_EVT, 0.4}, {P::O_FD_REG, 0.5}, {P::O_FD_DEREG, 0.3}, {P::O_FD_WRITE, 0.5}, {P::O_ERRNO, 0.5},
-         {P::O_CTX_DEREG, 0.2}, {P::O_CTX_FINALIZE, 0.05}, {P::O_SET_TICK, 0.05}, {P::O_CTX_REG, 0.15}};
+         {P::O_CTX_DEREG, 0.2}, {P::O_CTX_FINALIZE, 0.05}, {P::O_SET_TICK, 0.05}, {P::O_CTX_REG, 0.15}, {P::O_LOOP, 0.15}};
     auto scale = [&](std::map<int, double> &m, std::initializer_list<int> codes, double f) { for (int c : codes) if (m.count(c)) m[c] *= f; else m[c] = f; };
     if (prop == "C03" || prop == "C08" || prop == "C02") t[P::O_LOOP] = 3;
     if (prop == "C01") { scale(t, {P::O_START, P::O_PAUSE, P::O_RESUME, P::O_STOP, P::O_DEREG, P::O_REG}, 2.0); scale(s, {P::O_START, P::O_PAUSE, P::O_RESUME, P::O_STOP, P::O_DEREG}, 2.0); scale(t, {P::O_FD_REG, P::O_FD_WRITE, P::O_TMR_REG, P::O_FLOOD, P::O_BATCH_TIMEOUT}, 0.3); }
@@ -37,7 +37,7 @@ static Weights profile_weights(const std::string &prop) {
     else if (prop == "C17") { scale(t, {P::O_BECOME, P::O_UNBECOME}, 4); scale(s, {P::O_BECOME, P::O_UNBECOME}, 3); scale(t, {P::O_TELL}, 1.5); }
     else if (prop == "C19") { scale(t, {P::O_SUB, P::O_START, P::O_PAUSE, P::O_RESUME, P::O_STOP, P::O_QUIT}, 1.6); t[P::O_SET_TICK] = 0.15; }
     else if (prop == "C07") { t[P::O_CTX_REG] = 3; t[P::O_CTX_DEREG] = 3; t[P::O_CTX_FINALIZE] = 1; t[P::O_CTX_PROBE] = 3; scale(t, {P::O_REG, P::O_DEREG}, 1.8); s[P::O_CTX_DEREG] = 0.8; s[P::O_CTX_REG] = 0.8; }
-    else if (prop == "C15") { scale(t, {P::O_REG, P::O_LOOKUP, P::O_CTX_PROBE}, 2); scale(s, {P::O_QUIT, P::O_CTX_PROBE, P::O_CTX_DEREG}, 3); s[P::O_SET_TICK] = 0.5; s[P::O_CTX_FINALIZE] = 0.3; s[P::O_CTX_REG] = 0.8; }
+    else if (prop == "C15") { scale(t, {P::O_REG, P::O_LOOKUP, P::O_CTX_PROBE}, 2); scale(s, {P::O_QUIT, P::O_CTX_PROBE, P::O_CTX_DEREG}, 3); s[P::O_SET_TICK] = 0.5; s[P::O_CTX_FINALIZE] = 0.3; s[P::O_CTX_REG] = 0.8; s[P::O_LOOP] = 0.8; }
     else if (prop == "C03" || prop == "C20") { scale(t, {P::O_FD_REG, P::O_FD_DEREG, P::O_FD_WRITE, P::O_TMR_REG, P::O_TMR_DEREG, P::O_SRC_REG, P::O_SRC_DEREG, P::O_SRC_FIRE, P::O_TASK_RELEASE}, 3); scale(s, {P::O_ERRNO}, 4); }
     else if (prop == "C09") { scale(t, {P::O_FD_REG, P::O_FD_DEREG, P::O_TMR_REG, P::O_TMR_DEREG, P::O_SUB, P::O_UNSUB}, 3); }
     else if (prop == "C18") {
@@ -62,7 +62,7 @@ static rc::Gen<Op> gen_op_from(const std::map<int, double> &w, int nmods, const 
         if (!weight) continue;
         Gen<long> ga = gen::just(0L), gb = gen::just(0L);
         switch (code) {
-        case P::O_CTX_REG: ga = gens::range<long>(0, 8); break;
+        case P::O_CTX_REG: ga = gens::range<long>(0, 8); gb = prop == "C07" ? gens::weighted_values<long>({{2, 0}, {1, 1}}) : gens::weighted_values<long>({{6, 0}, {1, 1}}); break;
         case P::O_LOOP: ga = gens::weighted_values<long>({{2, 0}, {2, 9}, {1, 200}}); break;
         case P::O_QUIT: ga = gens::weighted_values<long>({{2, 0}, {2, 7}, {1, 42}, {1, 255}, {1, 4}, {1, 11}}); break;
         case P::O_DISPATCH: ga = gens::weighted_values<long>({{5, 1}, {3, 2}, {2, 4}, {1, 12}}); if (prop == "C03") gb = gens::weighted_values<long>({{14, 0}, {3, 1}, {1, 2}, {1, 3}, {1, 4}}); else if (prop == "C04" || prop == "C02" || prop == "C08") gb = gens::weighted_values<long>({{30, 0}, {1, 1}, {1, 3}}); break;
@@ -198,6 +198,14 @@ static rc::Gen<std::vector<Op>> gen_phrase(const Weights &w, int nmods, const st
         v.push_back(mkop(P::O_DISPATCH, 0, 0, 1, std::get<3>(t)));
         v.push_back(mkop(P::O_DISPATCH, 0, 0, std::get<5>(t)));
         return v; });
+    // a poison pill reaches a module that still holds earlier messages in its batch queue (delivered by the handler run ahead of the stop)
+    auto pillbatch = gen::map(gen::tuple(slot, slot, gens::weighted_values<long>({{2, 2}, {2, 3}, {1, 5}}), gens::range<long>(1, 3), gens::range<long>(1, 3)), [](std::tuple<int, int, long, long, long> t) {
+        int x = std::get<0>(t), y = std::get<1>(t);
+        std::vector<Op> v{mkop(P::O_BATCH_SIZE, x, 0, std::get<2>(t))};
+        for (long i = 0; i < std::get<3>(t); i++) v.push_back(mkop(P::O_TELL, y, x));
+        v.push_back(mkop(P::O_DISPATCH, 0, 0, std::get<3>(t)));
+        v.push_back(mkop(P::O_PILL, y, x)); v.push_back(mkop(P::O_DISPATCH, 0, 0, std::get<4>(t) + 1));
+        return v; });
     // tick phrases: a subscriber to the tick topic, a short period, dispatches spaced by sleeps, then a longer period (C19.3);
     // and: only the tick is due in a poll batch while a module waits in IDLE (C01.6)
     auto tickcycle = gen::map(gen::tuple(slot, gens::weighted_values<long>({{3, 12}, {1, 14}}), gens::weighted_values<long>({{1, 2}, {2, 5}}), gens::weighted_values<long>({{1, 10}, {3, 50}, {2, 200}, {1, 0}}), gens::range<long>(2, 6), gens::range<long>(10, 17), gens::weighted_values<long>({{2, 3}, {1, 6}})),
@@ -249,6 +257,10 @@ static rc::Gen<std::vector<Op>> gen_phrase(const Weights &w, int nmods, const st
         auto rest = gens::weighted<std::vector<Op>>({{80, single}, {5, deliver}, {4, pubdeliver}, {1, burst}, {8, loopcycle}, {1, become_cycle}, {1, fdcycle}});
         return gens::weighted<std::vector<Op>>({{90, rest}, {5, deregall}, {5, teardownfull}});
     }
+    if (prop == "C08") {
+        auto rest = gens::weighted<std::vector<Op>>({{35, single}, {12, deliver}, {12, pubdeliver}, {18, burst}, {10, loopcycle}, {1, become_cycle}, {1, stash_cycle}, {10, batch}, {1, fdcycle}});
+        return gens::weighted<std::vector<Op>>({{95, rest}, {5, pillbatch}});
+    }
     if (prop == "C17") {
         auto rest = gens::weighted<std::vector<Op>>({{35, single}, {10, deliver}, {4, pubdeliver}, {2, burst}, {4, loopcycle}, {40, become_cycle}, {4, stash_cycle}, {1, batch}, {1, fdcycle}});
         return gens::weighted<std::vector<Op>>({{95, rest}, {5, tbbecome}});
@@ -256,7 +268,7 @@ static rc::Gen<std::vector<Op>> gen_phrase(const Weights &w, int nmods, const st
     if (prop == "C19" || prop == "C01") {
         std::vector<size_t> ws = prop == "C19" ? std::vector<size_t>{55, 6, 14, 2, 14, 1, 0, 1, 0, 1} : std::vector<size_t>{70, 8, 6, 1, 8, 2, 1, 1, 0, 1};
         auto rest = gens::weighted<std::vector<Op>>({{ws[0], single}, {ws[1], deliver}, {ws[2], pubdeliver}, {ws[3], burst}, {ws[4], loopcycle}, {ws[5], become_cycle}, {ws[6], stash_cycle}, {ws[7], batch}, {ws[9], fdcycle}});
-        return prop == "C19" ? gens::weighted<std::vector<Op>>({{88, rest}, {5, tickcycle}, {2, tickeval}, {5, pausedsub}}) : gens::weighted<std::vector<Op>>({{95, rest}, {1, tickcycle}, {4, tickeval}});
+        return prop == "C19" ? gens::weighted<std::vector<Op>>({{88, rest}, {5, tickcycle}, {2, tickeval}, {5, pausedsub}}) : gens::weighted<std::vector<Op>>({{91, rest}, {1, tickcycle}, {4, tickeval}, {4, pillbatch}});
     }
     // batching settings must not survive a stop: timeout (and size) configured, module stopped and started again, plain traffic afterwards
     auto batchrestart = gen::map(gen::tuple(slot, slot, gens::weighted_values<long>({{2, 2}, {1, 5}}), gens::weighted_values<long>({{2, 0}, {1, 2}, {1, 3}}), gens::range<long>(0, 3), gens::range<long>(1, 4)), [](std::tuple<int, int, long, long, long, long> t) {
@@ -277,14 +289,6 @@ static rc::Gen<std::vector<Op>> gen_phrase(const Weights &w, int nmods, const st
         auto rest = gens::weighted<std::vector<Op>>({{50, single}, {8, deliver}, {8, pubdeliver}, {3, burst}, {8, loopcycle}, {1, become_cycle}, {1, stash_cycle}, {2, batch}, {18, fdcycle}});
         return gens::weighted<std::vector<Op>>({{74, rest}, {18, livecycle}, {8, faultcycle}});
     }
-    // a poison pill reaches a module that still holds earlier messages in its batch queue (delivered by the handler run ahead of the stop)
-    auto pillbatch = gen::map(gen::tuple(slot, slot, gens::weighted_values<long>({{2, 2}, {2, 3}, {1, 5}}), gens::range<long>(1, 3), gens::range<long>(1, 3)), [](std::tuple<int, int, long, long, long> t) {
-        int x = std::get<0>(t), y = std::get<1>(t);
-        std::vector<Op> v{mkop(P::O_BATCH_SIZE, x, 0, std::get<2>(t))};
-        for (long i = 0; i < std::get<3>(t); i++) v.push_back(mkop(P::O_TELL, y, x));
-        v.push_back(mkop(P::O_DISPATCH, 0, 0, std::get<3>(t)));
-        v.push_back(mkop(P::O_PILL, y, x)); v.push_back(mkop(P::O_DISPATCH, 0, 0, std::get<4>(t) + 1));
-        return v; });
     if (prop == "C03" || prop == "C20" || prop == "C09" || prop == "C04") {
         size_t lw = prop == "C04" ? 6 : 18;
         auto rest = (prop == "C04") ? gens::weighted<std::vector<Op>>({{52, single}, {10, deliver}, {10, pubdeliver}, {4, burst}, {6, loopcycle}, {3, become_cycle}, {4, stash_cycle}, {3, batch}, {5, fdcycle}, {3, overflow}, {3, pillbatch}})
